@@ -1009,7 +1009,7 @@ class WorkflowConductor(object):
                     task_state_entry["next"][task_transition_id] = all(evaluated_criteria)
                 except Exception as e:
                     self.log_error(e, task_id, route, task_transition_id)
-                    self.request_workflow_status(statuses.FAILED)
+                    self._fail_workflow_unless_canceled()
                     continue
 
                 # If criteria met, then mark the next task staged and calculate outgoing context.
@@ -1025,7 +1025,7 @@ class WorkflowConductor(object):
 
                     if errors:
                         self.log_errors(errors, task_id, route, task_transition_id)
-                        self.request_workflow_status(statuses.FAILED)
+                        self._fail_workflow_unless_canceled()
                         continue
 
                     out_ctx_idxs = json_util.deepcopy(task_state_entry["ctxs"]["in"])
@@ -1146,6 +1146,18 @@ class WorkflowConductor(object):
             task_state_entry["term"] = True
 
         return task_state_entry
+
+    def _fail_workflow_unless_canceled(self):
+        # The completion of an action execution can be reported after the workflow is already
+        # canceled (i.e. the task was paused or pending and the workflow was dormant when it was
+        # canceled). The error is logged but the workflow stays canceled, the same as when
+        # rendering the workflow output fails.
+        if self.get_workflow_status() not in [
+            statuses.EXPIRED,
+            statuses.ABANDONED,
+            statuses.CANCELED,
+        ]:
+            self.request_workflow_status(statuses.FAILED)
 
     def _evaluate_route(self, task_transition, prev_route):
         task_id = task_transition[1]
